@@ -598,8 +598,51 @@ fn g_polys(r: &mut Rng) -> Vec<f64> {
     }
 }
 
+/// The property's second observable: `stroke()` with a non-empty dash pattern must be the stroke of the dashed
+/// path — same elements, bit for bit (that is how the dispatch is written; every pattern length >= 1 counts).
+/// (Added after a seeded change in the dispatch of `stroke()` — single-interval patterns stroked solid — was missed.)
+fn law_stroke_dispatch(a: &[f64]) -> Option<(String, String)> {
+    use kurbo::{stroke, Cap, Join, Stroke, StrokeOpts};
+    let (pat, off, els) = dec_args(a);
+    if pat.is_empty() || els.is_empty() {
+        return None;
+    }
+    // width/tolerance derived from the input so that the law stays a pure function of its arguments
+    let width = 0.5 + (a.len() % 7) as f64 * 0.25;
+    let base = Stroke::new(width).with_join(Join::Bevel).with_caps(Cap::Butt);
+    let dashed_style = base.clone().with_dashes(off, pat.clone());
+    let got = std::panic::catch_unwind(|| stroke(els.iter().cloned(), &dashed_style, &StrokeOpts::default(), 0.1));
+    let pieces: Vec<PathEl> = dash(els.iter().cloned(), off, &pat).collect();
+    let want = std::panic::catch_unwind(|| stroke(pieces.iter().cloned(), &base, &StrokeOpts::default(), 0.1));
+    match (got, want) {
+        (Ok(g), Ok(w)) => {
+            let same = g.elements().len() == w.elements().len()
+                && enc_els(g.elements()).iter().zip(enc_els(w.elements()).iter()).all(|(x, y)| x.to_bits() == y.to_bits() || (x.is_nan() && y.is_nan()));
+            if !same {
+                return fail(
+                    &format!("stroke-dispatch:pattern-len-{}", pat.len().min(3)),
+                    format!("stroke() with dash pattern {:?} offset {} differs from the stroke of dash(): {} vs {} elements; path {:?}", pat, off, g.elements().len(), w.elements().len(), els),
+                );
+            }
+            None
+        }
+        (Err(_), Ok(_)) | (Ok(_), Err(_)) => fail("stroke-dispatch:panic", format!("pattern {:?} path {:?}", pat, els)),
+        _ => None,
+    }
+}
+
+fn g_dispatch(r: &mut Rng) -> Vec<f64> {
+    // patterns of 1..4 intervals (single-interval ones in a third of the cases), polylines and curves
+    let n = if r.chance(1, 3) { 1 } else { 1 + r.below(4) as usize };
+    let pat: Vec<f64> = (0..n).map(|_| r.range_i(1, 12) as f64 * 0.25).collect();
+    let off = generic_offset(r, &pat);
+    let kinds = if r.chance(1, 3) { 3 } else { 1 };
+    enc_args(&pat, off, &generic_path(r, kinds, true))
+}
+
 fn laws() -> Vec<Law> {
     vec![
+        Law { name: "stroke_dispatch", gen: g_dispatch, check: law_stroke_dispatch, weight: 1 },
         Law { name: "intervals_stair", gen: g_stair, check: law_intervals, weight: 6 },
         Law { name: "intervals_lines", gen: g_lines, check: law_intervals, weight: 4 },
         Law { name: "intervals_curves", gen: g_curves, check: law_intervals, weight: 2 },
